@@ -563,3 +563,91 @@ def rich_bases(rng: random.Random):
         # no Connection header games in the bases; keep-alive so canaries are reachable
         r.headers = [h for h in r.headers if h[0].lower() != b"connection"]
     return L, C, N
+
+
+# --------------------------------------------------------------------------------------------------
+# compact messages for segmentation enumeration (C03) and responses
+
+
+def gen_compact_request(rng: random.Random) -> bytes:
+    """A short valid request (40..110 bytes) exercising every carried parser field."""
+    kind = rng.choice(["none", "length", "chunked", "chunked", "chunked-tr"])
+    m = rng.choice([b"GET", b"POST", b"PUT"]) if kind == "none" else rng.choice([b"POST", b"PUT"])
+    t = rng.choice([b"/", b"/a?b=1", b"/x/y"])
+    v = b"HTTP/1.1"
+    hs = [b"Host: h"]
+    if rng.random() < 0.5:
+        hs.append(rng.choice([b"X-A: v", b"X-B:  w ", b"Accept: */*", b"X-E:"]))
+    body = b""
+    if kind == "length":
+        n = rng.choice([1, 3, 7])
+        hs.append(b"Content-Length: %d" % n)
+        body = bytes(rng.choice(b"ab\r\n0") for _ in range(n))
+    elif kind.startswith("chunked"):
+        hs.append(b"Transfer-Encoding: chunked")
+        parts = []
+        for _ in range(rng.randint(1, 3)):
+            n = rng.choice([1, 2, 5, 11])
+            ext = rng.choice([b"", b"", b";a=b", b";x"])
+            parts.append(b"%x%s\r\n%s\r\n" % (n, ext, bytes(rng.choice(b"xy\r\n0;") for _ in range(n))))
+        parts.append(b"0\r\n")
+        if kind == "chunked-tr":
+            parts.append(rng.choice([b"X-T: 1\r\n", b"X-T: 1\r\nX-U: 2\r\n"]))
+        parts.append(b"\r\n")
+        body = b"".join(parts)
+    rng.shuffle(hs)
+    return m + b" " + t + b" " + v + b"\r\n" + b"\r\n".join(hs) + b"\r\n\r\n" + body
+
+
+def gen_response(rng: random.Random, compact: bool = False, lax_endings: bool = True) -> tuple[bytes, str]:
+    """One response.  Returns (bytes, framing) framing in none|length|chunked|eof."""
+    eol = b"\r\n"
+    if lax_endings and rng.random() < 0.2:
+        eol = b"\n"
+    code = rng.choice([200, 200, 200, 201, 204, 304, 404, 500, 206, 301])
+    reason = rng.choice([b"OK", b"", b"Not Found", b"Some Reason Text", b"\xc3\xa9"])
+    ver = rng.choice([b"HTTP/1.1", b"HTTP/1.1", b"HTTP/1.0"])
+    line = ver + b" %d" % code + (b" " + reason if reason or rng.random() < 0.5 else b"")
+    hs = []
+    for _ in range(rng.randint(0, 2 if compact else 5)):
+        n = rng.choice([b"X-A", b"Server", b"Content-Type", b"Set-Cookie", b"X-Long-Name-Header"])
+        val = rng.choice([b"v", b"text/html; charset=utf-8", b"a=b; Path=/", b"", b"x y", b"\xe4"])
+        h = n + b":" + rng.choice([b" ", b"", b"  "]) + val
+        if lax_endings and rng.random() < 0.1:
+            h += eol + b" folded"
+        hs.append(h)
+    framing = "none"
+    body = b""
+    if code in (204, 304):
+        framing = "none"
+    else:
+        framing = rng.choice(["length", "chunked", "eof", "length0"])
+        if ver == b"HTTP/1.0" and framing == "chunked":
+            framing = "length"
+        nb = rng.choice([1, 2, 5, 16] if compact else [1, 5, 64, 300, 2000])
+        data = bytes(rng.choice(b"abc\r\n0;:") for _ in range(nb))
+        if framing == "length":
+            hs.append(b"Content-Length: %d" % nb)
+            body = data
+        elif framing == "length0":
+            hs.append(b"Content-Length: 0")
+            framing = "length"
+        elif framing == "chunked":
+            hs.append(b"Transfer-Encoding: chunked")
+            parts = []
+            pos = 0
+            while pos < nb:
+                k = min(nb - pos, rng.choice([1, 2, 7, 100]))
+                parts.append(b"%x%s%s%s%s" % (k, rng.choice([b"", b"", b";e=1", b" "]), eol, data[pos : pos + k], eol))
+                pos += k
+            parts.append(b"0" + eol)
+            if rng.random() < 0.3:
+                parts.append(b"X-T: 1" + eol)
+            parts.append(eol)
+            body = b"".join(parts)
+        else:
+            body = data
+            hs.append(b"Connection: close") if rng.random() < 0.5 else None
+    rng.shuffle(hs)
+    head = line + eol + b"".join(h + eol for h in hs) + eol
+    return head + body, framing
